@@ -6,8 +6,6 @@ From Verif Require Import Base.PyInt C16.Asm.
 Import ListNotations.
 Open Scope Z_scope.
 
-Definition byte_ok (b : Z) : bool := (0 <=? b) && (b <? 256).
-
 Definition compile_push (l : list Z) : res (list Z) :=
   match l with
   | k :: imm =>
